@@ -384,3 +384,334 @@ Proof.
     unfold off_lt, mkrec. cbn [br_off].
     apply fab_offset_lt. rewrite file_fabs_length. lia.
 Qed.
+
+(* ------------------------------------------------------------------ *)
+(** * Walking a file made of FABs *)
+
+Lemma hdr_shape_fab fb : length (fab_lo fb) = length (fab_hi fb) ->
+  hdr_shape {| h_lo := fab_lo fb; h_hi := fab_hi fb; h_nc := fab_nc fb |}
+  = Some (fab_shape fb).
+Proof.
+  intros H. unfold hdr_shape, np_binop. cbn [h_hi h_lo].
+  rewrite <- H, Nat.eqb_refl. reflexivity.
+Qed.
+
+Lemma readline_fab pre fb post :
+  readline (pre ++ encode_fab fb ++ post) (blen pre) = fab_hdr fb.
+Proof.
+  unfold readline, rest. rewrite zskipn_app_exact.
+  unfold encode_fab. rewrite <- app_assoc. unfold fab_hdr.
+  apply take_line_print_hdr.
+Qed.
+
+Lemma walk_shape_step nf f pos fb nexts : fab_ok fb = true ->
+  walk_shape nf f pos (fab_hdr fb) nexts =
+  if pos + 8 * fab_cells fb * fab_nc fb <? 0 then false else
+  match nexts with
+  | [] => pos + 8 * fab_cells fb * fab_nc fb =? blen f
+  | b :: rest =>
+      if bytes_eqb (readline f (pos + 8 * fab_cells fb * fab_nc fb))
+                   (print_hdr (br_lo b) (br_hi b) nf)
+      then walk_shape nf f
+             (pos + 8 * fab_cells fb * fab_nc fb
+              + blen (readline f (pos + 8 * fab_cells fb * fab_nc fb)))
+             (readline f (pos + 8 * fab_cells fb * fab_nc fb)) rest
+      else false
+  end.
+Proof.
+  intros Hok. destruct (fab_ok_inv fb Hok) as (Hlo & Hhi & Hlen & _).
+  assert (E : zprod (fab_shape fb) * fab_nc fb * 8 = 8 * fab_cells fb * fab_nc fb)
+    by (unfold fab_cells; ring).
+  destruct nexts as [|b rest]; cbn [walk_shape]; unfold fab_hdr;
+    rewrite (parse_print_hdr _ _ _ Hlo Hhi), (hdr_shape_fab fb Hlen);
+    cbn [h_nc]; rewrite E; reflexivity.
+Qed.
+
+Theorem walk_shape_complete : forall nf name fs,
+  Forall (fun fb => fab_ok fb = true /\ fab_nc fb = nf) fs ->
+  forall m k, (S k + m = length fs)%nat ->
+  walk_shape nf (encode_file fs)
+    (fab_offset fs k + blen (fab_hdr (nth k fs dummy_fab)))
+    (fab_hdr (nth k fs dummy_fab))
+    (map (mkrec name fs) (seq (S k) m)) = true.
+Proof.
+  intros nf name fs HF. rewrite Forall_forall in HF.
+  induction m as [|m IH]; intros k Hk.
+  - assert (Hin : In (nth k fs dummy_fab) fs) by (apply nth_In; lia).
+    destruct (HF _ Hin) as [Hok Hnc].
+    rewrite walk_shape_step by exact Hok. cbn [seq map].
+    assert (E : fab_offset fs k + blen (fab_hdr (nth k fs dummy_fab))
+                + 8 * fab_cells (nth k fs dummy_fab) * fab_nc (nth k fs dummy_fab)
+                = blen (encode_file fs)).
+    { rewrite <- fab_offset_all. replace (length fs) with (S k) by lia.
+      rewrite fab_offset_S by lia. unfold fab_size.
+      rewrite (blen_encode_fab _ Hok). lia. }
+    rewrite E. pose proof (blen_nonneg (encode_file fs)) as Hnn.
+    destruct (blen (encode_file fs) <? 0) eqn:E0; [lia|]. apply Z.eqb_refl.
+  - assert (Hin : In (nth k fs dummy_fab) fs) by (apply nth_In; lia).
+    destruct (HF _ Hin) as [Hok Hnc].
+    assert (Hin' : In (nth (S k) fs dummy_fab) fs) by (apply nth_In; lia).
+    destruct (HF _ Hin') as [Hok' Hnc'].
+    rewrite walk_shape_step by exact Hok. cbn [seq map].
+    assert (E : fab_offset fs k + blen (fab_hdr (nth k fs dummy_fab))
+                + 8 * fab_cells (nth k fs dummy_fab) * fab_nc (nth k fs dummy_fab)
+                = fab_offset fs (S k)).
+    { rewrite fab_offset_S by lia. unfold fab_size.
+      rewrite (blen_encode_fab _ Hok). lia. }
+    rewrite E.
+    assert (Hrl : readline (encode_file fs) (fab_offset fs (S k))
+                  = fab_hdr (nth (S k) fs dummy_fab)).
+    { destruct (encode_file_split fs (S k)) as [Hsplit Hlen]; [lia|].
+      rewrite Hsplit, <- Hlen. apply readline_fab. }
+    rewrite Hrl.
+    pose proof (fab_offset_nonneg fs (S k)) as Hnn.
+    destruct (fab_offset fs (S k) <? 0) eqn:E0; [lia|].
+    assert (Hh : print_hdr (br_lo (mkrec name fs (S k))) (br_hi (mkrec name fs (S k))) nf
+                 = fab_hdr (nth (S k) fs dummy_fab)).
+    { unfold mkrec, fab_hdr. cbn [br_lo br_hi]. rewrite Hnc'. reflexivity. }
+    rewrite Hh, LayoutProofs.bytes_eqb_refl.
+    apply IH. lia.
+Qed.
+
+Lemma file_fabs_Forall lv nf name ids : wf_level lv = true ->
+  Forall (fun fb => fab_nc fb = nf) (lv_fabs lv) ->
+  In (name, ids) (lv_files lv) ->
+  Forall (fun fb => fab_ok fb = true /\ fab_nc fb = nf) (file_fabs lv ids).
+Proof.
+  intros Hwf Hnc Hin. apply Forall_forall. intros fb Hfb.
+  pose proof (file_fabs_In lv name ids fb Hwf Hin Hfb) as Hfb'.
+  pose proof (wf_level_fabs_ok lv Hwf) as Hok. rewrite forallb_forall in Hok.
+  rewrite Forall_forall in Hnc. split; [apply Hok|apply Hnc]; exact Hfb'.
+Qed.
+
+Theorem shape_ok_file_complete : forall nf nf' pl name ids,
+  wf_level (pl_level pl) = true ->
+  Forall (fun fb => fab_nc fb = nf) (lv_fabs (pl_level pl)) ->
+  In (name, ids) (lv_files (pl_level pl)) ->
+  shape_ok_file nf (snd (pl_dir nf' pl)) (pl_cellh pl) name = true.
+Proof.
+  intros nf nf' pl name ids Hwf Hnc Hin.
+  unfold shape_ok_file. cbn [pl_dir snd ld_files].
+  rewrite (lookup_lv_disk _ name ids Hwf Hin).
+  rewrite (file_boxes_sorted pl name ids Hwf Hin).
+  pose proof (file_fabs_Forall _ nf name ids Hwf Hnc Hin) as HF.
+  pose proof (file_fabs_length (pl_level pl) ids) as Hlen.
+  pose proof (wf_level_ids_nonempty _ Hwf name ids Hin) as Hne.
+  set (fs := file_fabs (pl_level pl) ids) in *.
+  destruct ids as [|i0 ids']; [congruence|]. clear Hne.
+  cbn [length seq map]. cbv zeta.
+  assert (Hrl : readline (encode_file fs) 0 = fab_hdr (nth 0%nat fs dummy_fab)).
+  { destruct (encode_file_split fs 0%nat) as [Hsplit _]; [cbn [length] in Hlen; lia|].
+    rewrite Hsplit. cbn [firstn]. rewrite encode_file_nil.
+    exact (readline_fab [] _ _). }
+  rewrite Hrl.
+  replace (blen (fab_hdr (nth 0%nat fs dummy_fab)))
+    with (fab_offset fs 0 + blen (fab_hdr (nth 0%nat fs dummy_fab)))
+    by (rewrite fab_offset_0; lia).
+  apply walk_shape_complete; [exact HF|]. cbn [length] in Hlen. lia.
+Qed.
+
+Theorem check_shape_complete : forall nf nf' pl,
+  wf_level (pl_level pl) = true ->
+  Forall (fun fb => fab_nc fb = nf) (lv_fabs (pl_level pl)) ->
+  check_shape nf (snd (pl_dir nf' pl)) (pl_cellh pl) = true.
+Proof.
+  intros nf nf' pl Hwf Hnc. unfold check_shape.
+  apply forallb_forall. intros name Hname.
+  destruct (cells_or_nil_spec _ Hwf) as [Hcells _].
+  pose proof (level_names_perm _ _ Hwf Hcells) as HP.
+  change (c_files (pl_cellh pl)) with (map fst (cells_or_nil (pl_level pl))) in Hname.
+  apply (Permutation_in _ HP) in Hname.
+  apply in_map_iff in Hname. destruct Hname as ([n ids] & <- & Hin). cbn [fst].
+  apply (shape_ok_file_complete nf nf' pl n ids Hwf Hnc Hin).
+Qed.
+
+(* ------------------------------------------------------------------ *)
+(** * (d) the header of every box *)
+
+Theorem check_headers_complete : forall nf nf' pl,
+  wf_level (pl_level pl) = true ->
+  Forall (fun fb => fab_nc fb = nf) (lv_fabs (pl_level pl)) ->
+  check_headers nf (snd (pl_dir nf' pl)) (pl_cellh pl) = true.
+Proof.
+  intros nf nf' pl Hwf Hnc. unfold check_headers.
+  rewrite (cell_boxes_spec pl Hwf).
+  apply forallb_forall. intros r Hr.
+  apply in_map_iff in Hr. destruct Hr as (b & <- & Hb). apply in_seq in Hb.
+  set (lv := pl_level pl) in *.
+  assert (Hbl : (b < length (lv_fabs lv))%nat) by lia.
+  destruct (locate_total lv b Hwf Hbl) as [c Hloc].
+  destruct (locate_spec lv b c Hwf Hbl Hloc) as (pre & post & Hlk & Hpre).
+  set (fb := nth b (lv_fabs lv) dummy_fab) in *.
+  assert (Hfb : In fb (lv_fabs lv)) by (apply nth_In; exact Hbl).
+  pose proof (wf_level_fabs_ok lv Hwf) as Hok. rewrite forallb_forall in Hok.
+  specialize (Hok fb Hfb).
+  rewrite Forall_forall in Hnc. specialize (Hnc fb Hfb).
+  destruct (fab_ok_inv fb Hok) as (Hlo & Hhi & Hlen & _).
+  unfold header_ok, boxrec_of, loc_of. rewrite Hloc.
+  cbn [br_file br_off br_lo br_hi pl_dir snd ld_files].
+  fold lv. fold fb. rewrite Hlk, <- Hpre.
+  pose proof (blen_nonneg pre) as Hnn.
+  destruct (blen pre <? 0) eqn:E0; [lia|].
+  rewrite readline_fab. unfold fab_hdr.
+  rewrite (parse_print_hdr _ _ _ Hlo Hhi), (hdr_shape_fab fb Hlen).
+  cbn [h_lo h_hi h_nc]. rewrite !list_eqb_refl, Hnc, Z.eqb_refl. reflexivity.
+Qed.
+
+(* ------------------------------------------------------------------ *)
+(** * (c) every file named by the level header exists *)
+
+Theorem check_structure_complete : forall nf' pl,
+  wf_level (pl_level pl) = true ->
+  check_structure (snd (pl_dir nf' pl)) (pl_cellh pl) = true.
+Proof.
+  intros nf' pl Hwf. unfold check_structure.
+  cbn [pl_dir snd ld_files pl_cellh c_files].
+  rewrite (proj2 (cells_or_nil_spec _ Hwf)), map_map.
+  apply forallb_forall. intros f Hf.
+  apply in_map_iff in Hf. destruct Hf as (b & <- & Hb). apply in_seq in Hb.
+  assert (Hbl : (b < length (lv_fabs (pl_level pl)))%nat) by lia.
+  destruct (locate_total _ b Hwf Hbl) as [c Hloc].
+  destruct (locate_spec _ b c Hwf Hbl Hloc) as (pre & post & Hlk & _).
+  unfold loc_of. rewrite Hloc.
+  apply (lookup_some_existsb _ _ _ Hlk).
+Qed.
+
+(* the three checks do not look at the min/max tables *)
+Lemma check_structure_strip ld c :
+  check_structure ld (strip_minmax c) = check_structure ld c.
+Proof. reflexivity. Qed.
+Lemma check_headers_strip nf ld c :
+  check_headers nf ld (strip_minmax c) = check_headers nf ld c.
+Proof. reflexivity. Qed.
+Lemma check_shape_strip nf ld c :
+  check_shape nf ld (strip_minmax c) = check_shape nf ld c.
+Proof. reflexivity. Qed.
+
+(* ------------------------------------------------------------------ *)
+(** * (b) opening the level headers *)
+
+Lemma wf_cellh_pl ndims nf pl mm : wf_plevel ndims nf pl -> wf_cellh mm (pl_cellh pl).
+Proof.
+  intros (_ & Hwf & _ & _ & _ & Hmn & Hmx & Hmnf & Hmxf).
+  pose proof (proj2 (cells_or_nil_spec _ Hwf)) as Hcells.
+  unfold wf_cellh, pl_cellh. cbn [c_indexes c_files c_offsets c_mins c_maxs].
+  rewrite Hcells, !map_length, seq_length.
+  repeat split; try assumption.
+  apply Forall_forall. intros ix Hix. apply in_map_iff in Hix.
+  destruct Hix as (fb & <- & Hfb). cbn [fst snd].
+  pose proof (wf_level_fabs_ok _ Hwf) as Hok. rewrite forallb_forall in Hok.
+  destruct (fab_ok_inv fb (Hok fb Hfb)) as (Hlo & Hhi & _). split; assumption.
+Qed.
+
+Lemma lookup_dir_levels nf : forall levels pl,
+  NoDup (map (fun pl => lb_cell_dir (pl_boxes pl)) levels) -> In pl levels ->
+  lookup_dir (lb_cell_dir (pl_boxes pl)) (map (pl_dir nf) levels) = Some (snd (pl_dir nf pl)).
+Proof.
+  induction levels as [|p levels IH]; intros pl Hnd Hin; [destruct Hin|].
+  cbn [map] in Hnd. inversion Hnd as [|? ? Hp Hnd']; subst.
+  cbn [map]. unfold pl_dir at 1. cbn [lookup_dir].
+  destruct Hin as [->|Hin].
+  - rewrite LayoutProofs.bytes_eqb_refl. reflexivity.
+  - destruct (bytes_eqb (lb_cell_dir (pl_boxes p)) (lb_cell_dir (pl_boxes pl))) eqn:E.
+    + exfalso. apply LayoutProofs.bytes_eqb_true in E. apply Hp. rewrite E.
+      apply (in_map (fun pl => lb_cell_dir (pl_boxes pl))). exact Hin.
+    + apply IH; assumption.
+Qed.
+
+Definition opened_of (pf : plotfile) (lim : Z) : opened :=
+  {| o_g := pf_g pf; o_keys := field_keys (g_names (pf_g pf)) []; o_limit := lim;
+     o_levels := restrict_levels lim (map pl_boxes (pf_levels pf)) |}.
+
+Definition opened_levels (pf : plotfile) (lim : Z) (mm : bool) : list (ldir * cellh) :=
+  map (fun pl => (snd (pl_dir (pf_nfields pf) pl),
+                  if mm then pl_cellh pl else strip_minmax (pl_cellh pl)))
+      (firstn (Z.to_nat (lim + 1)) (pf_levels pf)).
+
+Lemma nfields_keys pf : blen (o_keys (opened_of pf 0)) = pf_nfields pf.
+Proof.
+  unfold opened_of, pf_nfields, blen. cbn [o_keys]. rewrite field_keys_length. reflexivity.
+Qed.
+
+Theorem open_levels_complete : forall pf lim mm, wf_plotfile pf ->
+  open_levels (pf_disk pf) (opened_of pf lim) mm = Some (opened_levels pf lim mm).
+Proof.
+  intros pf lim mm (Hg & Hlen & Hnd & Hlv).
+  unfold open_levels, opened_levels, opened_of, restrict_levels.
+  cbn [o_levels o_keys pf_disk pd_dirs].
+  rewrite firstn_map, omap_all_map_pre.
+  apply omap_all_map. intros pl Hin. apply In_firstn in Hin.
+  rewrite (lookup_dir_levels _ _ pl Hnd Hin). cbn [obind pl_dir snd ld_cellh].
+  replace (blen (field_keys (g_names (pf_g pf)) [])) with (pf_nfields pf)
+    by (symmetry; apply (nfields_keys pf)).
+  rewrite Forall_forall in Hlv.
+  pose proof (wf_cellh_pl _ _ pl mm (Hlv pl Hin)) as Hwc.
+  rewrite <- (app_nil_r (print_cellh (pf_nfields pf) (pl_cellh pl))).
+  destruct (p_cellh_print (pf_nfields pf) mm (pl_cellh pl) [] Hwc) as [Ht Hf].
+  destruct mm.
+  - rewrite (Ht eq_refl). reflexivity.
+  - destruct (Hf eq_refl) as [rest' Hr]. rewrite Hr. reflexivity.
+Qed.
+
+(* ------------------------------------------------------------------ *)
+(** * (a) opening the global header *)
+
+Theorem open_header_complete : forall pf limit lim, wf_plotfile pf ->
+  eff_limit (g_max_level (pf_g pf)) limit = Some lim -> 0 <= lim ->
+  open_header (print_header (pf_g pf) (map pl_boxes (pf_levels pf))) limit
+  = Some (opened_of pf lim).
+Proof.
+  intros pf limit lim (Hg & Hlen & Hnd & Hlv) Heff Hlim. unfold opened_of.
+  apply open_header_roundtrip; [exact Hg| |rewrite blen_map; exact Hlen|exact Heff|lia].
+  apply Forall_forall. intros lb Hlb. apply in_map_iff in Hlb.
+  destruct Hlb as (pl & <- & Hpl). rewrite Forall_forall in Hlv.
+  destruct (Hlv pl Hpl) as (H & _). exact H.
+Qed.
+
+(* ------------------------------------------------------------------ *)
+(** * Completeness *)
+
+Theorem taste_complete : forall (pf : plotfile) (o : topts) (limit : option Z) (lim : Z),
+  wf_plotfile pf ->
+  eff_limit (g_max_level (pf_g pf)) limit = Some lim -> 0 <= lim ->
+  (t_data o && negb (t_headers o && t_shape o)) = false ->
+  taste_good o limit (pf_disk pf) = true.
+Proof.
+  intros pf o limit lim Hwf Heff Hlim Hbr.
+  unfold taste_good.
+  change (pd_header (pf_disk pf))
+    with (Some (print_header (pf_g pf) (map pl_boxes (pf_levels pf)))).
+  cbv beta iota.
+  rewrite (open_header_complete pf limit lim Hwf Heff Hlim).
+  rewrite (open_levels_complete pf lim (t_data o) Hwf).
+  rewrite Hbr. cbn [negb].
+  replace (blen (o_keys (opened_of pf lim))) with (pf_nfields pf)
+    by (symmetry; apply (nfields_keys pf)).
+  destruct Hwf as (Hg & Hlen & Hnd & Hlv). rewrite Forall_forall in Hlv.
+  assert (HS : forallb (fun lc => check_structure (fst lc) (snd lc))
+                       (opened_levels pf lim (t_data o)) = true).
+  { apply forallb_forall. intros lc Hlc. apply in_map_iff in Hlc.
+    destruct Hlc as (pl & <- & Hpl). apply In_firstn in Hpl. cbn [fst snd].
+    destruct (Hlv pl Hpl) as (_ & Hwl & _).
+    destruct (t_data o); [|rewrite check_structure_strip];
+      apply check_structure_complete; exact Hwl. }
+  assert (HH : forallb (fun lc => check_headers (pf_nfields pf) (fst lc) (snd lc))
+                       (opened_levels pf lim (t_data o)) = true).
+  { apply forallb_forall. intros lc Hlc. apply in_map_iff in Hlc.
+    destruct Hlc as (pl & <- & Hpl). apply In_firstn in Hpl. cbn [fst snd].
+    destruct (Hlv pl Hpl) as (_ & Hwl & _ & _ & Hnc & _).
+    destruct (t_data o); [|rewrite check_headers_strip];
+      apply check_headers_complete; assumption. }
+  assert (HP : forallb (fun lc => check_shape (pf_nfields pf) (fst lc) (snd lc))
+                       (opened_levels pf lim (t_data o)) = true).
+  { apply forallb_forall. intros lc Hlc. apply in_map_iff in Hlc.
+    destruct Hlc as (pl & <- & Hpl). apply In_firstn in Hpl. cbn [fst snd].
+    destruct (Hlv pl Hpl) as (_ & Hwl & _ & _ & Hnc & _).
+    destruct (t_data o); [|rewrite check_shape_strip];
+      apply check_shape_complete; assumption. }
+  rewrite HS, HH, HP.
+  destruct (t_headers o), (t_shape o); reflexivity.
+Qed.
+
+Print Assumptions taste_complete.
+Print Assumptions taste_binary_data_branch.
